@@ -42,11 +42,15 @@ def canonical(cfgname, configs, close=True):
             if len(sim.cl) == 2 and not sim.wrong_code and not cfg.get("welcome_error") and cfg.get("appids", ("a", "a"))[0] == cfg.get("appids", ("a", "a"))[1]:
                 stuck = [c.name for c in sim.cl if c.state("B") in ("S0_empty", "S1_lonely")]
                 if stuck:
-                    raise AssertionError("canonical run of config %r stalled before key agreement on side(s) %r after %d steps" % (cfgname, stuck, len(tr)))
+                    CANON_STALLED[cfgname] = "canonical run of config %r stalled before key agreement on side(s) %r after %d steps" % (cfgname, stuck, len(tr))
         finally:
             sim.close_world()
         _canon_cache[key] = tr
     return _canon_cache[key]
+
+
+# vacuity guard (see canonical()): the prefixes of a stalled honest run are still explored; a path that then ends without a violation is inconclusive
+CANON_STALLED = {}
 
 
 class Explore(Job):
@@ -125,6 +129,8 @@ class Explore(Job):
             if self._oracle(sim, "settled") and self.honest_completion:
                 sim.complete(close=False)
                 self._oracle(sim, "settled")
+            if self.cfg in CANON_STALLED:
+                eng().note("canonical-stalled: " + CANON_STALLED[self.cfg])      # -> inconclusive unless the job found a violation (harness/common.py)
             eng().note("nt:explored")
         finally:
             eng().stats.cover |= sim.world.transitions
